@@ -4,9 +4,11 @@ from __future__ import annotations
 
 import argparse
 import importlib
+import json
 import os
 import sys
 import traceback
+from pathlib import Path
 
 from sa.core import AnalysisError, Report
 
@@ -29,8 +31,23 @@ def main(argv=None) -> int:
                 rc = rc2
         return rc
     except AnalysisError as e:
+        # a rule that lost its anchor must not hide what the rules before it already found
+        rc = 2
+        try:
+            from sa.core import load_known
+            known, _fixed = load_known(prop)
+            ev_dir = Path(os.environ.get("VERIF_EVIDENCE_DIR", str(Path(__file__).resolve().parent.parent / "evidence")))
+            (ev_dir / "replay").mkdir(parents=True, exist_ok=True)
+            for i, f in enumerate([f for f in rep.findings if f.key not in known]):
+                rp = ev_dir / "replay" / f"{prop}_{i}.json"
+                rp.write_text(json.dumps(f.__dict__, indent=1))
+                print(f"  {f.file}:{f.line} {f.func} — {f.rule} — {f.message}")
+                print(f"VIOLATION property={prop} replay={rp}")
+                rc = 1
+        except Exception:
+            traceback.print_exc()
         print(f"ANALYSIS-ERROR property={prop}: {e}")
-        return 2
+        return rc
     except Exception:
         traceback.print_exc()
         print(f"ANALYSIS-ERROR property={prop}: internal error in the checker (see traceback)")
